@@ -462,6 +462,22 @@ def _section_db(case, tm_ids):
     return next((s.get('db') for s in case['sources'] if s.get('kind') in ('sqltable', 'sqlquery')), None)
 
 
+def gen_words_case(rng, kinds=('ssv', 'ssv', 'csv', 'tsv')):
+    """a delimited text file (comma, semicolon, tab) whose cells are words that readers like to interpret: NA / None / NULL / N/A / nan,
+    numbers with leading zeros or trailing zeros, booleans -- every cell is text and only the configured na_values are null"""
+    words = ['NA', 'None', 'NULL', 'N/A', 'nan', 'n/a', 'a', 'b', '1', '0071', '1.50', 'true', 'TRUE', '-', '#N/A', 'x y']
+    nums = ['0071', '1.50', '1', '10', '-3', '+5', '1e3']
+    n = rng.choice([2, 3, 4, 6])
+    numeric_col = rng.random() < 0.4
+    rows = [[str(i + 1), rng.choice(words), rng.choice(nums if numeric_col and i < n - 1 else words)] for i in range(n)]
+    def tm(k, v, ck='iri', tt=''):
+        return {'k': k, 'v': v, 'ck': ck, 'tt': tt}
+    poms = [{'preds': [tm('const', EX + 'p/c1')], 'objs': [{'m': tm('ref', 'c1'), 'lang': None, 'dt': None, 'joins': []}], 'graphs': []},
+            {'preds': [tm('const', EX + 'p/c2')], 'objs': [{'m': rng.choice([tm('ref', 'c2'), tm('templ', 'v={c2}', 'iri', 'lit')]), 'lang': None, 'dt': None, 'joins': []}], 'graphs': []}]
+    return {'cfg': {'nquads': False, 'mode': 'NO'}, 'sources': [{'key': 'S0', 'kind': rng.choice(list(kinds)), 'cols': ['id', 'c1', 'c2'], 'rows': rows}],
+            'doc': [{'id': EX + 'tm/T', 'src': 'S0', 'nonasserted': False, 'subj': tm('templ', EX + 'r/{id}'), 'sjoins': [], 'classes': [], 'sgraphs': [], 'poms': poms}]}
+
+
 def gen_shard_case(rng):
     """the same mapping applied to same-named tables of two databases (two data-source sections with their own db_url): the two triples
     maps have the same shape, so their rules fall into the same mapping groups"""
